@@ -8,10 +8,11 @@
    correspondence run compares with the implementation.
    PART B is the record of the repaired defects: the same model at [fixed = false] is the
    code before those commits (checkable with VERIF_C06_FIXED=0 against an unpatched tree). *)
-From Coq Require Import List NArith.
+From Coq Require Import List NArith Bool.
 From HV Require Import Base.Res Base.Str Model.Parse Model.RefSplice Model.Assemble
   Model.AssembleOps
-  Proofs.ParseProofs Proofs.AssembleProofs Proofs.AssembleTotal Proofs.AssembleOpsProofs.
+  Proofs.ParseProofs Proofs.AssembleProofs Proofs.AssembleTotal Proofs.AssembleOpsProofs
+  Proofs.SpliceLiteralProofs.
 Import ListNotations.
 
 (* ====================== PART A: the code as it now is (fixed = true) ====================== *)
@@ -92,6 +93,49 @@ Theorem C06_deterministic_inputs_unchanged :
   series_a true st' ord = Ok (st', rows).
 Proof. exact (deterministic_unchanged true). Qed.
 Print Assumptions C06_deterministic_inputs_unchanged.
+
+(* "Spliced in place of the reference", verbatim: a reference whose column text is neither
+   "n/a" nor empty is replaced by plain LITERAL substitution ([str_replace]) -- at an
+   occurrence the text is inserted exactly as it is, whatever characters it contains
+   (backslashes, \1, \g<0>, $, %, ...): nothing in it is interpreted.  All inputs. *)
+Theorem C06_reference_spliced_verbatim :
+  forall rest ref v : str, skipped v = false ->
+  replace_ref true (brace ref ++ rest) ref v = Ok (v ++ str_replace (brace ref) v rest 0).
+Proof. exact replace_ref_hit. Qed.
+Print Assumptions C06_reference_spliced_verbatim.
+
+Theorem C06_replacement_is_literal :
+  forall (old new rest : str) (c : N) (s : str),
+  (old <> [] -> str_replace old new (old ++ rest) 0 = new ++ str_replace old new rest 0) /\
+  (prefixb old (c :: s) = false -> str_replace old new (c :: s) 0 = c :: str_replace old new s 0).
+Proof. exact (fun old new rest c s => conj (str_replace_hit old new rest) (str_replace_miss old new c s)). Qed.
+Print Assumptions C06_replacement_is_literal.
+
+(* "Each value template with '#' replaced by the cell text, skipping cells that are n/a or
+   empty": ONLY the exact texts "n/a" and "" are skipped; every other cell -- substrings and
+   near-misses of n/a such as a, n, /, n/, /a, N/A, na, " n/a" included -- fills every '#'
+   verbatim.  All templates and cells. *)
+Theorem C06_only_exact_na_is_skipped :
+  forall x : str, skipped x = true <-> x = ch_na \/ x = [].
+Proof. exact skipped_exact. Qed.
+Print Assumptions C06_only_exact_na_is_skipped.
+
+Theorem C06_value_cell_fills_template :
+  forall tmpl x : str, skipped x = false -> value_handler true tmpl x = subst_hash tmpl x.
+Proof. exact value_handler_exact. Qed.
+Print Assumptions C06_value_cell_fills_template.
+
+Theorem C06_hash_is_cell_text_verbatim :
+  forall a b x : str, subst_hash (a ++ ch_hash :: b) x = subst_hash a x ++ x ++ subst_hash b x.
+Proof. exact subst_hash_at. Qed.
+Print Assumptions C06_hash_is_cell_text_verbatim.
+
+Example C06_near_misses_nonvacuous :
+  forallb (fun x => negb (skipped x) && str_eqb (value_handler true [76; 47; 35]%N x) ([76; 47]%N ++ x))
+          near_misses = true /\
+  replace_ref true [123; 118; 125; 44; 32; 82]%N [118]%N [112; 92; 49; 113]%N
+  = Ok [112; 92; 49; 113; 44; 32; 82]%N.
+Proof. exact (conj near_misses_not_skipped backslash_spliced). Qed.
 
 (* "Gives the same answer every time it is asked" over HISTORIES on one object
    (Model/AssembleOps.v): for every sequence of assemblies and reset_column_mapper
